@@ -39,6 +39,10 @@ if not _where.startswith(REPO_SRC + os.sep):
     sys.exit(2)
 
 
+from . import vset as _vset  # noqa: E402
+VSET_ACTIVE = _vset.install(classes)
+
+
 def namespace():
     """A namespace in which recipes (python expressions) are evaluated."""
     ns = {}
